@@ -6,6 +6,7 @@ import (
 	"fmt"
 	"os"
 	"runtime"
+	"strconv"
 
 	"github.com/scigolib/hdf5/internal/zzverif/dump"
 	"github.com/scigolib/hdf5/internal/zzverif/ev"
@@ -17,6 +18,12 @@ import (
 func main() {
 	// debugging aid: vcheck script <script.json> <out.h5> runs an operation script and prints
 	// per-operation results and the logical dump of the reopened file
+	if len(os.Args) >= 4 && os.Args[1] == "libseed" {
+		// debugging aid: write library seed k (C07/C17) to a file
+		k, _ := strconv.Atoi(os.Args[2])
+		fmt.Println(props.C07LibSeedWrite(k, os.Args[3]))
+		return
+	}
 	if len(os.Args) >= 3 && os.Args[1] == "c07synth" {
 		// debugging aid: write every structural input of C07 into a directory
 		for _, l := range props.C07SynthWrite(os.Args[2]) {
